@@ -500,6 +500,123 @@ fn match_case(rt: &Runtime<NoCtx>, drv: &mut Driver, seed: u64, index: u64, rep:
     rep.hist("match-table", real_cat);
 }
 
+// ------------------------------------------------------------ literal variables
+
+/// Variables bound to unsuffixed literals: the manual leaves their type to
+/// inference, but one type per variable. A random set of constraints (alias,
+/// unary minus, uses at a type, comparisons) is rendered as Roto in varied
+/// syntactic forms; the Lean side decides typability by trying ALL assignments
+/// of types (`Typing.ltypable`, no inference). Both directions are compared.
+fn lit_case(rt: &Runtime<NoCtx>, drv: &mut Driver, seed: u64, index: u64, rep: &mut Report) {
+    let mut p = Prng::for_case(seed ^ 0x6c69_7476, index);
+    let nvars = 1 + p.below(3) as usize;
+    let tys = ["u8", "u16", "u32", "u64", "i8", "i16", "i32", "i64", "f32", "f64"];
+    let mut spec: Vec<String> = Vec::new();
+    let mut body = String::new();
+    let mut params: Vec<String> = Vec::new();
+    let mut helpers = String::new();
+    let mut kinds: Vec<&str> = Vec::new();
+    // declarations: a literal, or an alias of an earlier variable
+    let mut is_float = vec![false; nvars];
+    for x in 0..nvars {
+        if x > 0 && p.chance(1, 3) {
+            let y = p.below(x as u64) as usize;
+            spec.push(format!("a{x}={y}"));
+            body.push_str(&format!("let y{x} = y{y}; "));
+            is_float[x] = is_float[y];
+            kinds.push("alias");
+        } else if p.chance(1, 5) {
+            spec.push(format!("f{x}"));
+            body.push_str(&format!("let y{x} = 1.5; "));
+            is_float[x] = true;
+        } else {
+            spec.push(format!("l{x}"));
+            body.push_str(&format!("let y{x} = {}; ", 1 + p.below(9)));
+        }
+    }
+    let nstmts = 1 + p.below(4);
+    for k in 0..nstmts {
+        let x = p.below(nvars as u64) as usize;
+        match p.below(7) {
+            0 | 1 => {
+                spec.push(format!("n{x}"));
+                match p.below(3) {
+                    0 => body.push_str(&format!("let n{k} = -y{x}; ")),
+                    1 => body.push_str(&format!("-y{x}; ")),
+                    _ => body.push_str(&format!("let n{k} = (-y{x}) * (-y{x}); ")),
+                }
+                kinds.push("neg");
+            }
+            2 if nvars > 1 => {
+                let y = p.below(nvars as u64) as usize;
+                spec.push(format!("c{x}:{y}"));
+                let op = *p.pick(&["<", "==", ">=", "!="]);
+                body.push_str(&format!("let c{k} = y{x} {op} y{y}; "));
+                kinds.push("cmp");
+            }
+            _ => {
+                // a use at a type: mostly of the literal's own class
+                let t = if p.chance(5, 6) {
+                    if is_float[x] { tys[8 + p.below(2) as usize] } else { tys[p.below(8) as usize] }
+                } else {
+                    *p.pick(&tys)
+                };
+                spec.push(format!("u{x}:{t}"));
+                match p.below(7) {
+                    0 => {
+                        params.push(format!("a{k}: {t}"));
+                        body.push_str(&format!("let u{k} = y{x} + a{k}; "));
+                    }
+                    1 => {
+                        params.push(format!("a{k}: {t}"));
+                        body.push_str(&format!("let u{k} = a{k} * y{x}; "));
+                    }
+                    2 => {
+                        helpers.push_str(&format!("fn g{k}(p: {t}) {{ }}\n"));
+                        body.push_str(&format!("g{k}(y{x}); "));
+                    }
+                    3 => {
+                        params.push(format!("a{k}: {t}"));
+                        body.push_str(&format!("let u{k} = [a{k}, y{x}]; "));
+                    }
+                    4 => {
+                        params.push(format!("a{k}: {t}"));
+                        body.push_str(&format!("let u{k} = y{x} == a{k}; "));
+                    }
+                    5 => body.push_str(&format!("let u{k}: {t} = y{x}; ")),
+                    _ => {
+                        params.push(format!("a{k}: {t}"));
+                        body.push_str(&format!("a{k} = y{x}; "));
+                    }
+                }
+                kinds.push("use");
+            }
+        }
+    }
+    let src = format!("{helpers}fn main({}) {{ {body}}}\n", params.join(", "));
+    let answer = drv.ask(&format!("c07 lit {nvars} {}", spec.join(",")));
+    let real = compile(rt, &src, false);
+    rep.evaluations += 1;
+    kinds.sort();
+    kinds.dedup();
+    let input = json!({"seed": seed, "index": index, "src": src, "lit": spec.join(","), "nvars": nvars, "model": answer});
+    match (&real, answer.as_str()) {
+        (Outcome::Ok, "typable") | (Outcome::TypeError(_), "untypable") => {}
+        (Outcome::Ok, "untypable") => rep.violation(
+            "a script whose literal variables have no consistent type compiled",
+            &format!("accepted:litvars:{}", kinds.join("+")),
+            input,
+        ),
+        (Outcome::TypeError(line), "typable") => rep.mismatch(
+            &format!("a script whose literal variables have a consistent type is rejected: {line}"),
+            input,
+        ),
+        (other, a) => rep.mismatch(&format!("literal-variable script: model `{a}`, compiler {other:?}"), input),
+    }
+    rep.class(format!("lit:{}:{}:{}", nvars, kinds.join("+"), answer));
+    rep.hist("literal-variables", answer);
+}
+
 // ------------------------------------------------------------------ unification
 
 fn unify_case(drv: &mut Driver, seed: u64, index: u64, rep: &mut Report) {
@@ -641,6 +758,7 @@ fn worker(args: &[String]) {
             "ops" => ops_case(&rt, &mut drv, i, &mut rep),
             "match" => match_case(&rt, &mut drv, seed, i, &mut rep),
             "unify" => unify_case(&mut drv, seed, i, &mut rep),
+            "lit" => lit_case(&rt, &mut drv, seed, i, &mut rep),
             _ => {}
         }
     }
@@ -770,14 +888,16 @@ fn main() {
             let progs = env_n("C07_PROGS", pick(15_000, 40_000, 400_000));
             let matches = env_n("C07_MATCH", pick(5_000, 20_000, 150_000));
             let unifies = env_n("C07_UNIFY", pick(20_000, 60_000, 600_000));
+            let lits = env_n("C07_LIT", pick(6_000, 20_000, 150_000));
             let jobs = env_n("C07_JOBS", 4);
             let mut rep = Report::default();
             run_phase("ops", seed, ops_total(), 700, jobs, &mut rep);
             run_phase("match", seed, matches, 500, jobs, &mut rep);
             run_phase("unify", seed, unifies, 2000, jobs, &mut rep);
+            run_phase("lit", seed, lits, 1000, jobs, &mut rep);
             run_phase("prog", seed, progs, 250, jobs, &mut rep);
             rep.notes.push(format!(
-                "phases: ops {} (whole table), match {matches}, unify {unifies}, programs {progs} (evaluations count judged mutants, not programs)",
+                "phases: ops {} (whole table), match {matches}, unify {unifies}, literal variables {lits}, programs {progs} (evaluations count judged mutants, not programs)",
                 ops_total()
             ));
             rep.emit();
@@ -840,6 +960,16 @@ fn replay_one(input: &Value, rep: &mut Report) {
             if !d.starts_with("err") {
                 return;
             }
+        }
+        if let Some(lit) = input["lit"].as_str() {
+            let mut drv = Driver::spawn().expect("lean driver");
+            let a = drv.ask(&format!("c07 lit {} {lit}", input["nvars"].as_u64().unwrap_or(1)));
+            println!("declarative judge: {a}");
+            rep.evaluations += 1;
+            if a == "untypable" && compile(&rt, src, false) == Outcome::Ok {
+                rep.violation("a script whose literal variables have no consistent type compiled", "accepted:litvars:replay", input.clone());
+            }
+            return;
         }
         if input["arms"].is_array() {
             rep.evaluations += 1;
